@@ -1,7 +1,13 @@
 """C08 — ADF parsers return the file's numbers under the documented conventions."""
 import ast
 import z3
-from .common import structural, as_bool
+from .common import structural as _structural, as_bool
+
+
+def structural(name, prop, ok, detail=''):
+    tags = (('adf15/', 'adf15'), ('adf11/', 'adf11'), ('adf21/', 'adf21'), ('adf22/', 'adf21'), ('conversion/', 'adf21'))
+    st = next((t for pre, t in tags if name.startswith(pre)), None)
+    return _structural(name, prop, ok, detail, standin=st)
 from pyvc.values import Obj, Ref, to_int, to_real
 
 PROP = 'C08'
@@ -200,6 +206,12 @@ def _statements(ctx, eng):
                               (('EXCIT', 'excitation'), ('RECOM', 'recombination'), ('CHEXC', 'thermalcx'))), 'EXCIT / RECOM / CHEXC'))
         out.append(structural('adf15/%s.block-to-transition' % name, PROP, "config[rate_type][element][charge][upper_level, lower_level] = block_num" in src or
                               "config[rate_type][element][charge][(upper_level, lower_level)] = block_num" in src, 'transition -> block number'))
+    fn = tree.find_func("cherab/openadas/install.py", "_thermalcx_adf15_2dto3d_converter")
+    inner = [n for n in ast.walk(fn) if isinstance(n, ast.For) and not any(isinstance(m, ast.For) for m in ast.walk(n) if m is not n)]
+    okc = len(inner) == 1 and any(isinstance(b, ast.Assign) and ast.unparse(b.targets[0]) == 'data' and 'np.empty(' in ast.unparse(b.value) for b in inner[0].body) \
+        and "'rate': data" in ast.unparse(inner[0])
+    out.append(structural('adf15/thermalcx-3d-array-allocated-per-transition', PROP, okc,
+                          'the (ne, te, td) array is allocated inside the loop over transitions (one array per transition, never shared)'))
     A12 = "cherab/openadas/parse/adf12.py"
     src = ' '.join(ast.unparse(tree.find_func(A12, "parse_adf12")).split())
     for key, expr in (('ni', "PerCm3ToPerM3.to(np.array(rate['DENSI'], np.float64))"), ('qeb', "Cm3ToM3.to(np.array(rate['QENER'], np.float64))"),
@@ -287,8 +299,8 @@ for trial in range(%d):
     try:
         r = parse_adas2x_rate(io.StringIO(t2))
         cases += 1
-        ok = (np.allclose(r["e"], eb, rtol=2e-3) and np.allclose(r["n"], np.array(dt) * 1e6, rtol=2e-3) and np.allclose(r["t"], tt, rtol=2e-3)
-              and np.allclose(r["sen"], np.array(sv).T, rtol=2e-3) and np.allclose(r["st"], svt, rtol=2e-3) and r["sen"].shape == (neb, ndt))
+        ok = (np.allclose(r["e"], eb, rtol=2e-3, atol=0) and np.allclose(r["n"], np.array(dt) * 1e6, rtol=2e-3, atol=0) and np.allclose(r["t"], tt, rtol=2e-3, atol=0)
+              and np.allclose(r["sen"], np.array(sv).T, rtol=2e-3, atol=0) and np.allclose(r["st"], svt, rtol=2e-3, atol=0) and r["sen"].shape == (neb, ndt))
         if not ok: bad.append(("adas2x", trial))
     except Exception as e:
         bad.append(("adas2x-error", trial, repr(e)[:80]))
@@ -297,7 +309,79 @@ print(json.dumps({"cases": cases, "bad": bad[:8]}))
 ''' % (ctx['seed'], n)
     out = run_native(ctx, code, timeout=600)
     return {'name': 'independent ADF11 / ADF21 writers vs the real parsers (BOUNDED stand-in, not counted as proved)', 'ok': bool(out) and out.get('bad') == [],
+            'covers': ['adf11', 'adf21'],
             'detail': out, 'bound': '%d random files per format, grid sizes 1..23, seed %d' % (n, ctx['seed'])}
 
 
-BOUNDED = [bounded_writers]
+def bounded_adf15_roundtrip(ctx):
+    """Bounded stand-in (NOT a proof): an independent writer of the ADF15 layout (hydrogen-format comment index; EXCIT / RECOM / CHEXC blocks;
+    several blocks with the SAME grid sizes but different grid values and tables; counts that are not multiples of 8) -> parse_adf15 and
+    install_adf15 + repository getters; every table, grid and wavelength is compared with the numbers written."""
+    from replaylib.native import run_native
+    n = 6 if ctx['tier'] == 'quick' else 40
+    code = '''
+import random, tempfile, os, shutil, numpy as np
+from cherab.core.atomic import hydrogen
+from cherab.openadas.parse.adf15 import parse_adf15
+from cherab.openadas.install import install_adf15
+from cherab.openadas import repository
+rnd = random.Random(%d)
+bad = []; cases = 0
+def rows(vals, per=8):
+    return "".join(" ".join("%%.5e" %% v for v in vals[i:i + per]) + "\\n" for i in range(0, len(vals), per))
+d = tempfile.mkdtemp(prefix="verif_c08_adf15_")
+try:
+    for trial in range(%d):
+        shapes = [(rnd.randint(2, 11), rnd.randint(2, 13))]
+        kinds = ["EXCIT", "EXCIT", "RECOM", "CHEXC", "CHEXC", "CHEXC"]
+        trans = [(3, 2), (4, 2), (3, 2), (3, 2), (4, 2), (5, 3)]
+        blocks = []
+        for k, (kind, tr) in enumerate(zip(kinds, trans)):
+            nn, nt = shapes[0] if rnd.random() < 0.7 else (rnd.randint(2, 9), rnd.randint(2, 9))
+            ne = sorted(rnd.uniform(1e10, 1e15) for _ in range(nn)); te = sorted(rnd.uniform(0.2, 1e4) for _ in range(nt))
+            tab = [[rnd.uniform(1e-12, 1e-8) for _ in range(nt)] for _ in range(nn)]
+            wl = 1000.0 * (k + 3) + rnd.uniform(0, 99)
+            blocks.append((kind, tr, ne, te, tab, wl))
+        txt = "%%5d    /H 0 PHOTON EMISSIVITY COEFFICIENTS/\\n" %% len(blocks)
+        for k, (kind, tr, ne, te, tab, wl) in enumerate(blocks):
+            txt += " %%8.1f A %%4d %%4d /FILMEM = test    /TYPE = %%s /INDM = T /ISEL =  %%d\\n" %% (wl, len(ne), len(te), kind, k + 1)
+            txt += rows(ne) + rows(te)
+            for row in tab: txt += rows(row)
+        txt += "C" + "-" * 79 + "\\nC\\nC  ISEL  WAVELENGTH  TRANSITION  TYPE\\nC  ----  ----------  ----------  ----\\n"
+        for k, (kind, tr, ne, te, tab, wl) in enumerate(blocks):
+            txt += "C %%4d.  %%9.1f   N=%%2d - N=%%2d   %%s\\n" %% (k + 1, wl, tr[0], tr[1], kind)
+        txt += "C" + "-" * 79 + "\\n"
+        rel = "adf15/test/t%%d.dat" %% trial
+        os.makedirs(os.path.join(d, "adas", "adf15", "test"), exist_ok=True)
+        open(os.path.join(d, "adas", rel), "w").write(txt)
+        repo = os.path.join(d, "repo%%d" %% trial)
+        try:
+            rates, wls = parse_adf15(hydrogen, 0, os.path.join(d, "adas", rel), header_format="hydrogen")
+            install_adf15(hydrogen, 0, rel, repository_path=repo, adas_path=os.path.join(d, "adas"), header_format="hydrogen")
+        except Exception as e:
+            bad.append({"trial": trial, "error": repr(e)[:120]}); continue
+        cls = {"EXCIT": "excitation", "RECOM": "recombination", "CHEXC": "thermalcx"}
+        for k, (kind, tr, ne, te, tab, wl) in enumerate(blocks):
+            cases += 1
+            want_ne = np.array([float("%%.5e" %% v) for v in ne]) * 1e6; want_te = np.array([float("%%.5e" %% v) for v in te])
+            want = np.array([[float("%%.5e" %% v) for v in row] for row in tab]) * 1e-6
+            got = rates[cls[kind]][hydrogen][0][tr]
+            okp = np.allclose(got["ne"], want_ne, rtol=1e-9, atol=0) and np.allclose(got["te"], want_te, rtol=1e-9, atol=0) and np.allclose(got["rate"], want, rtol=1e-9, atol=0)
+            if kind == "EXCIT": back = repository.get_pec_excitation_rate(hydrogen, 0, tr, repository_path=repo)
+            elif kind == "RECOM": back = repository.get_pec_recombination_rate(hydrogen, 0, tr, repository_path=repo)
+            else: back = repository.get_pec_thermal_cx_rate(hydrogen, 0, hydrogen, 1, tr, repository_path=repo)
+            rb = np.array(back["rate"]); rb = rb[:, :, 0] if rb.ndim == 3 else rb
+            okr = np.allclose(back["ne"], want_ne, rtol=1e-9, atol=0) and np.allclose(back["te"], want_te, rtol=1e-9, atol=0) and np.allclose(rb, want, rtol=1e-9, atol=0)
+            if not (okp and okr):
+                bad.append({"trial": trial, "block": k + 1, "type": kind, "transition": list(tr), "parsed_ok": bool(okp), "installed_and_read_back_ok": bool(okr)})
+finally:
+    shutil.rmtree(d, ignore_errors=True)
+print(json.dumps({"cases": cases, "bad": bad[:6]}))
+''' % (ctx['seed'] + 5, n)
+    out = run_native(ctx, code, timeout=900)
+    return {'name': 'ADF15: independent writer vs parse_adf15 and install_adf15 + repository read-back (BOUNDED stand-in, not counted as proved)',
+            'ok': bool(out) and out.get('bad') == [], 'detail': out, 'covers': ['adf15'],
+            'bound': '%d random files, 6 blocks each (EXCIT/RECOM/CHEXC), several blocks sharing grid sizes, seed %d' % (n, ctx['seed'] + 5)}
+
+
+BOUNDED = [bounded_writers, bounded_adf15_roundtrip]
